@@ -41,6 +41,14 @@ CHECKS.update({
             "DESIGN.md section 5 C14"),
 })
 
+CHECKS.update({
+    "C10": ("exploration",
+            "bounded-exhaustive exploration: dependency edges / switch targets / flag writers are explorer choice bits realised by solver forking; real verify_code vs independent oracle, accepted methods run through interpreter, lowering and both generators",
+            "Exploration (said plainly): every branch of verify_code depends on graph shape, so after the shape is fixed no data dimension is left for the solver; the solver only realises the choice bits. All edge relations on 3 statements incl. self-loops, dangling and cross-phase edges (quick), 4 statements (thorough), x statement presentation orders, switch targets, flag writers, plus seeded random graphs on 5..8 statements.",
+            "Trusted: the independent well-formedness oracle in vf/checks/c10.py; 10 s alarm as the 'never hangs' budget.",
+            "DESIGN.md section 5 C10"),
+})
+
 NOT_APPLICABLE = {
 }
 
